@@ -158,7 +158,7 @@ impl<'de, R: Reader<'de>> Parser<R> {
             // least one more byte; the reader then stands on the first byte of element `index`
             res.is_ok() <==> array_lookup(old(self).read.data(), old(self).read.idx() as int, index as nat).is_some(),
             res.is_ok() ==> final(self).read.idx() == array_lookup(old(self).read.data(), old(self).read.idx() as int, index as nat).unwrap(),
-//@before /let mut count = index;/
+//@before /let mut count =/
         let ghost s = self.read.data();
         let ghost i0 = self.read.idx() as int;
         proof { lemma_ws_end_bounds(s, i0); }
